@@ -18,7 +18,7 @@ import (
 // ---------- F6: Freeze sets its flag on every path ----------
 
 func init() {
-	register("F6", "freezing always takes effect: in every Freeze/freeze function that memoises with a `frozen` flag, every path from the entry to a return either stores true into the flag (directly or through a callee that always does) or runs on the edge where the flag is already true; an early return before the store (e.g. for an empty table) would leave the value mutable after its module is frozen", 6, ruleF6)
+	register("F6", "freezing always takes effect: in every Freeze/freeze function that memoises with a `frozen` flag, every path from the entry to a return either stores true into the flag (directly or through a callee that always does) or runs on the edge where the flag is already true; an early return before the store (e.g. for an empty table) would leave the value mutable after its module is frozen", 4, ruleF6)
 	claim("C04", "F6")
 	claim("C05", "F6")
 }
@@ -1075,6 +1075,8 @@ func ruleI9(c *Ctx) {
 				c.ok(key, pos, "quotient/remainder step of the flooring idiom: the result is adjusted under a sign test")
 			case i9Exceptions[key] != "":
 				c.except(key, pos, i9Exceptions[key])
+			case bo.Op == token.QUO && isNamed(bo.Type(), "lib/time", "Duration") && isNamed(bo.X.Type(), "lib/time", "Duration"):
+				c.except(key, pos, i9Exceptions["(lib/time.Duration).Binary: /"])
 			default:
 				c.viol(key, pos, i9msg(fn, op, "neither operand is known to be non-negative and no sign adjustment follows"))
 			}
@@ -1656,6 +1658,10 @@ func ruleN10(c *Ctx) {
 			if !ok || ta.CommaOk {
 				return
 			}
+			// only operands that can hold a script-supplied value: interfaces that embed starlark.Value
+			if vi := valueIface(c.P); vi == nil || !types.Implements(ta.X.Type(), vi) {
+				return
+			}
 			n++
 			base := fmt.Sprintf("%s: .(%s)", fnName(fn), qualType(ta.AssertedType))
 			ord[base]++
@@ -1905,6 +1911,100 @@ func n10ReturnsOnly(fn *ssa.Function, t types.Type) bool {
 func n10ValidatedBefore(mc *ssa.MakeClosure, bound ssa.Value, t types.Type) bool {
 	parent := mc.Parent()
 	found := false
+	// the slice value(s) held in the captured cell
+	isSlice := func(v ssa.Value) bool {
+		if v == bound {
+			return true
+		}
+		if a, ok := bound.(*ssa.Alloc); ok {
+			for _, r := range *a.Referrers() {
+				if st, ok := r.(*ssa.Store); ok && st.Addr == a && st.Val == v {
+					return true
+				}
+				if ld, ok := r.(*ssa.UnOp); ok && ld.Op == token.MUL && ssa.Value(ld) == v {
+					return true
+				}
+			}
+		}
+		return false
+	}
+	// validation delegated to a helper: if bad := firstNonStringKey(items); bad != nil { return err }
+	eachInstr(parent, func(in ssa.Instruction) {
+		call, ok := in.(*ssa.Call)
+		if !ok || in.Parent() != parent || found {
+			return
+		}
+		cal := call.Call.StaticCallee()
+		if cal == nil || cal.Blocks == nil || !strings.HasPrefix(fnPkgPath(cal), modPath) {
+			return
+		}
+		argIdx := -1
+		for i, a := range call.Call.Args {
+			if isSlice(a) {
+				argIdx = i
+			}
+		}
+		if argIdx < 0 || argIdx >= len(cal.Params) {
+			return
+		}
+		// the helper tests elements of that parameter for type t
+		tests := false
+		eachInstr(cal, func(in2 ssa.Instruction) {
+			ta, ok := in2.(*ssa.TypeAssert)
+			if !ok || !ta.CommaOk || !types.Identical(ta.AssertedType, t) {
+				return
+			}
+			for _, b := range traceValue(ta.X).bases {
+				if b.v == ssa.Value(cal.Params[argIdx]) {
+					tests = true
+				}
+			}
+		})
+		if !tests || !instrDominates(call, mc) {
+			return
+		}
+		// the caller branches on the helper's result and one branch returns
+		var results []ssa.Value
+		results = append(results, call)
+		for _, r := range *call.Referrers() {
+			if ex, ok := r.(*ssa.Extract); ok {
+				results = append(results, ex)
+			}
+		}
+		for _, rv := range results {
+			if rv.Referrers() == nil {
+				continue
+			}
+			for _, r := range *rv.Referrers() {
+				var ifi *ssa.If
+				switch x := r.(type) {
+				case *ssa.If:
+					ifi = x
+				case *ssa.BinOp:
+					for _, r2 := range *x.Referrers() {
+						if i2, ok := r2.(*ssa.If); ok {
+							ifi = i2
+						}
+					}
+				}
+				if ifi == nil {
+					continue
+				}
+				for _, sc := range ifi.Block().Succs {
+					for _, fi := range sc.Instrs {
+						if ret, ok := fi.(*ssa.Return); ok && len(ret.Results) > 0 && !isNilConst(ret.Results[len(ret.Results)-1]) {
+							if ifi.Block().Dominates(mc.Block()) {
+								found = true
+							}
+						}
+					}
+				}
+			}
+		}
+	})
+	if found {
+		return true
+	}
 	eachInstr(parent, func(in ssa.Instruction) {
 		ta, ok := in.(*ssa.TypeAssert)
 		if !ok || !ta.CommaOk || in.Parent() != parent || !types.Identical(ta.AssertedType, t) {
@@ -1983,8 +2083,6 @@ var n9Exceptions = map[string]string{
 	"(*syntax.scanner).peekRune: sc.rest[0]":                     "eof() is false here: either rest was non-empty or readLine() returned true, which it does only after storing a non-empty line in sc.rest",
 	"(*syntax.TupleExpr).Span: x.List[0]":                        "parser invariant: a tuple expression without parentheses has at least one element (the empty tuple is always written ())",
 	"starlark.reserveAddresses: value[0]":                        "first byte of the successfully mmap'ed 4GB region",
-	"(starlark.Int).Hash: (*math/big.Int).Bits()[0]":             "the big arm of an Int never holds a value that fits in 32 bits, in particular never zero (canonical representation, rules I1/I7), so Bits() is non-empty",
-	"starlark.minmax: value[0]":                                  "keyargs is assigned the one-element tuple Tuple{extremum} on the same condition (keyFunc != nil) that guards this use",
 	"starlark.string_removefix: b.name[6]":                       "shared implementation of exactly two methods, removeprefix and removesuffix (12 characters each)",
 	"starlark.string_split: strings.Split()[0]":                  "guarded by excess = len(res) - maxsplit > 0 with maxsplit >= 0 on this branch, so res is non-empty (strings.Split never returns an empty slice for a non-empty separator)",
 	"lib/json.decode$4: s[0]":                                    "num is the number token just scanned: this branch is entered on '-' or a digit, which the scan loop consumes, so the token is non-empty",
@@ -2162,6 +2260,18 @@ func n9Guard(fn *ssa.Function, at ssa.Instruction, coll ssa.Value, k int64) stri
 			}
 		}
 	}
+	// (5a) lowest word of the big arm of an Int: the big arm never holds zero (canonical representation, I1/I7)
+	if k == 0 {
+		if call, ok := coll.(*ssa.Call); ok {
+			if cal := call.Call.StaticCallee(); cal != nil && cal.Name() == "Bits" && cal.Signature.Recv() != nil {
+				if pp, tn := namedOf(cal.Signature.Recv().Type()); pp == "math/big" && tn == "Int" {
+					if r := fn.Signature.Recv(); r != nil && isNamed(r.Type(), "starlark", "Int") {
+						return "lowest word of an Int's big arm, which never holds a value that fits in 32 bits (canonical representation, rules I1/I7), so Bits() is non-empty"
+					}
+				}
+			}
+		}
+	}
 	// (5) first character of a built-in's name (keys of the method tables are non-empty identifiers)
 	if k == 0 {
 		if call, ok := coll.(*ssa.Call); ok {
@@ -2216,6 +2326,9 @@ func n9FixedLen(v ssa.Value, depth int) (int64, bool) {
 	case *ssa.Phi:
 		min := int64(1 << 40)
 		for _, e := range x.Edges {
+			if isNilConst(e) {
+				continue // a variable that is either unset or a literal of fixed length: judged by its non-nil definitions
+			}
 			l, ok := n9FixedLen(e, depth+1)
 			if !ok {
 				return 0, false
@@ -2224,26 +2337,82 @@ func n9FixedLen(v ssa.Value, depth int) (int64, bool) {
 				min = l
 			}
 		}
-		return min, len(x.Edges) > 0
+		return min, len(x.Edges) > 0 && min < int64(1<<40)
 	case *ssa.UnOp:
 		if x.Op == token.MUL {
-			// a local cell assigned exactly once
-			if al, ok := x.X.(*ssa.Alloc); ok {
-				var val ssa.Value
-				n := 0
-				for _, r := range *al.Referrers() {
-					if st, ok := r.(*ssa.Store); ok && st.Addr == al {
-						n++
-						val = st.Val
+			// a local variable cell (possibly shared with closures): every value ever stored in it is nil
+			// or has a fixed length
+			var stores []ssa.Value
+			complete := false
+			switch cell := x.X.(type) {
+			case *ssa.Alloc:
+				stores, complete = cellStores(cell)
+			case *ssa.FreeVar:
+				fn := cell.Parent()
+				for _, mc := range closureSites(fn) {
+					if a, ok := freeVarBinding(mc, cell).(*ssa.Alloc); ok {
+						stores, complete = cellStores(a)
 					}
 				}
-				if n == 1 {
-					return n9FixedLen(val, depth+1)
+			}
+			if complete && len(stores) > 0 {
+				min := int64(1 << 40)
+				for _, v := range stores {
+					if isNilConst(v) {
+						continue
+					}
+					l, ok := n9FixedLen(v, depth+1)
+					if !ok {
+						return 0, false
+					}
+					if l < min {
+						min = l
+					}
 				}
+				return min, min < int64(1<<40)
 			}
 		}
 	}
 	return 0, false
+}
+
+// cellStores: every value stored into the local variable cell a, by its function and by the
+// closures that capture it; complete is false if the cell's address escapes otherwise.
+func cellStores(a *ssa.Alloc) (vals []ssa.Value, complete bool) {
+	complete = true
+	var visit func(cell ssa.Value)
+	visit = func(cell ssa.Value) {
+		refs := cell.Referrers()
+		if refs == nil {
+			return
+		}
+		for _, r := range *refs {
+			switch x := r.(type) {
+			case *ssa.Store:
+				if x.Addr == cell {
+					vals = append(vals, x.Val)
+				} else {
+					complete = false
+				}
+			case *ssa.UnOp, *ssa.DebugRef:
+			case *ssa.MakeClosure:
+				cf, _ := x.Fn.(*ssa.Function)
+				if cf == nil {
+					complete = false
+					continue
+				}
+				for i, b := range x.Bindings {
+					if b == cell && i < len(cf.FreeVars) {
+						visit(cf.FreeVars[i])
+					}
+				}
+			default:
+				complete = false
+			}
+		}
+	}
+	visit(a)
+	return
 }
 
 func constIntOK(v ssa.Value) (int64, bool) { return constInt(v) }
@@ -2610,9 +2779,11 @@ func ruleI2(c *Ctx) {
 	}
 }
 
-func isSmallArm(v ssa.Value) bool {
+func isSmallArm(v ssa.Value) bool { return isSmallArm1(v, 0) }
+
+func isSmallArm1(v ssa.Value, depth int) bool {
 	ex, ok := v.(*ssa.Extract)
-	if !ok || ex.Index != 0 {
+	if !ok {
 		return false
 	}
 	call, ok := ex.Tuple.(*ssa.Call)
@@ -2620,7 +2791,33 @@ func isSmallArm(v ssa.Value) bool {
 		return false
 	}
 	cal := call.Call.StaticCallee()
-	return cal != nil && cal.Name() == "get" && cal.Signature.Recv() != nil && isNamed(cal.Signature.Recv().Type(), "starlark", "Int")
+	if cal == nil {
+		return false
+	}
+	if ex.Index == 0 && cal.Name() == "get" && cal.Signature.Recv() != nil && isNamed(cal.Signature.Recv().Type(), "starlark", "Int") {
+		return true
+	}
+	// a helper of the Int implementation that hands out small arms (smallOperands(x, y))
+	if depth < 2 && cal.Blocks != nil && relPkg(fnPkgPath(cal)) == "starlark" {
+		any, all := false, true
+		for _, b := range cal.Blocks {
+			if len(b.Instrs) == 0 {
+				continue
+			}
+			if ret, ok := b.Instrs[len(b.Instrs)-1].(*ssa.Return); ok && ex.Index < len(ret.Results) {
+				any = true
+				r := ret.Results[ex.Index]
+				if k, isK := constInt(r); isK && k >= -(1<<31) && k <= (1<<31)-1 {
+					continue
+				}
+				if !isSmallArm1(r, depth+1) {
+					all = false
+				}
+			}
+		}
+		return any && all
+	}
+	return false
 }
 
 func i2Small(v ssa.Value, at *ssa.BasicBlock, depth int) string {
@@ -3380,4 +3577,698 @@ func extractOfUsed(ta *ssa.TypeAssert, elem map[ssa.Value]bool) bool {
 		}
 	}
 	return false
+}
+
+// ---------- A9: typed unpack targets do not coerce ----------
+
+func init() {
+	register("A9", "typed parameters of host built-ins are not coerced: in the argument unpacker every value stored through a typed target pointer (*bool, *float64, **List, **Dict, *Callable, *Iterable, *string) comes from a type assertion of the argument to the one corresponding Starlark type (or from AsString, which is that assertion); a lenient converter such as AsFloat - which also accepts ints and rounds them - would make a float64 parameter silently accept and alter an int", 5, ruleA9)
+	claim("C08", "A9")
+}
+
+func ruleA9(c *Ctx) {
+	fn := c.P.Func("starlark", "unpackArgNoEscape")
+	if fn == nil {
+		c.anchorFail("starlark.unpackArgNoEscape not found")
+		return
+	}
+	vParam := fn.Params[0]
+	n := 0
+	eachInstr(fn, func(in ssa.Instruction) {
+		st, ok := in.(*ssa.Store)
+		if !ok || in.Parent() != fn {
+			return
+		}
+		// destination: a pointer obtained from the type switch on the second parameter
+		dst := traceAddr(st.Addr)
+		fromPtr := false
+		for _, b := range dst.bases {
+			if b.v == ssa.Value(fn.Params[1]) {
+				fromPtr = true
+			}
+		}
+		if !fromPtr {
+			return
+		}
+		n++
+		key := fmt.Sprintf("starlark.unpackArgNoEscape: store through %s", typeShort(st.Addr.Type()))
+		// source: walk back through conversions to an assertion on v or a call
+		v := st.Val
+		why := ""
+		okSrc := false
+		for i := 0; i < 8 && v != nil; i++ {
+			switch x := v.(type) {
+			case *ssa.Convert:
+				v = x.X
+				continue
+			case *ssa.ChangeType:
+				v = x.X
+				continue
+			case *ssa.MakeInterface:
+				v = x.X
+				continue
+			case *ssa.Extract:
+				switch t := x.Tuple.(type) {
+				case *ssa.TypeAssert:
+					if t.X == ssa.Value(vParam) {
+						okSrc = true
+					}
+				case *ssa.Call:
+					if cal := t.Call.StaticCallee(); cal != nil && cal.Name() == "AsString" {
+						okSrc = true
+					} else {
+						why = "the value stored comes from " + calleeName(t) + ", a converter that accepts more than the parameter's own Starlark type"
+					}
+				}
+			case *ssa.Parameter:
+				if x == vParam {
+					okSrc = true // *Value target: any value
+				}
+			case *ssa.TypeAssert:
+				if x.X == ssa.Value(vParam) {
+					okSrc = true
+				}
+			case *ssa.Call:
+				why = "the value stored comes from " + calleeName(x) + ", a converter that accepts more than the parameter's own Starlark type"
+			}
+			break
+		}
+		if okSrc {
+			c.ok(key, c.P.Pos(st.Pos()), "stored value is the argument asserted to the target's Starlark type")
+		} else {
+			if why == "" {
+				why = "the stored value is not a type assertion of the argument"
+			}
+			c.viol(key, c.P.Pos(st.Pos()), why+": an argument of another type would be accepted and converted instead of rejected")
+		}
+	})
+	if n < 5 {
+		c.anchorFail("only %d typed stores found in unpackArgNoEscape", n)
+	}
+}
+
+// ---------- O14: dialect options are judged independently ----------
+
+func init() {
+	register("O14", "each dialect option is consulted whatever the others say: in the resolver no test of one FileOptions field is reached only through a branch that depends on a different option (directly or through a helper that reads one), except the one named pair; otherwise enabling one feature (top-level control flow) would silently switch off the check of another (while loops)", 6, ruleO14)
+	claim("C09", "O14")
+}
+
+var o14Exceptions = map[string]string{
+	"GlobalReassign under LoadBindsGlobally": "load binds locally only when LoadBindsGlobally is off; for a local binding GlobalReassign decides whether a duplicate is an error - the two options are about the same binding by design",
+}
+
+// optionsRead: which FileOptions field(s) does evaluating v read (through boolean operators and helper calls)?
+func optionsRead(v ssa.Value, depth int, out map[string]bool) {
+	if depth > 6 || v == nil {
+		return
+	}
+	switch x := v.(type) {
+	case *ssa.UnOp:
+		if x.Op == token.MUL {
+			tr := traceAddr(x.X)
+			if len(tr.fields) >= 1 && len(tr.owners) >= 1 && isNamed(tr.owners[0], "syntax", "FileOptions") {
+				out[tr.fields[0].Name()] = true
+			}
+			return
+		}
+		optionsRead(x.X, depth+1, out)
+	case *ssa.BinOp:
+		optionsRead(x.X, depth+1, out)
+		optionsRead(x.Y, depth+1, out)
+	case *ssa.Phi:
+		for _, e := range x.Edges {
+			optionsRead(e, depth+1, out)
+		}
+	case *ssa.Call:
+		if cal := x.Call.StaticCallee(); cal != nil && cal.Blocks != nil && relPkg(fnPkgPath(cal)) == "resolve" && depth < 3 {
+			// a helper whose boolean result depends on an option
+			eachInstr(cal, func(in ssa.Instruction) {
+				if ret, ok := in.(*ssa.Return); ok {
+					for _, r := range ret.Results {
+						optionsRead(r, depth+2, out)
+					}
+				}
+				if ifi, ok := in.(*ssa.If); ok {
+					optionsRead(ifi.Cond, depth+2, out)
+				}
+			})
+		}
+	}
+}
+
+func ruleO14(c *Ctx) {
+	n := 0
+	for _, fn := range c.P.Funcs {
+		if relPkg(fnPkgPath(fn)) != "resolve" {
+			continue
+		}
+		ord := map[string]int{}
+		for _, b := range fn.Blocks {
+			if len(b.Instrs) == 0 {
+				continue
+			}
+			ifi, ok := b.Instrs[len(b.Instrs)-1].(*ssa.If)
+			if !ok {
+				continue
+			}
+			// direct reads only (the option tested at this branch)
+			own := map[string]bool{}
+			cond, _ := stripNot(ifi.Cond)
+			if ld, ok := cond.(*ssa.UnOp); ok && ld.Op == token.MUL {
+				optionsRead(ld, 0, own)
+			}
+			if len(own) == 0 {
+				continue
+			}
+			for opt := range own {
+				n++
+				base := fmt.Sprintf("%s: test of option %s", fnName(fn), opt)
+				ord[base]++
+				key := base
+				if ord[base] > 1 {
+					key = fmt.Sprintf("%s #%d", base, ord[base])
+				}
+				bad := ""
+				for _, pc := range pathConds(b) {
+					others := map[string]bool{}
+					optionsRead(pc.If.Cond, 0, others)
+					for o := range others {
+						if o != opt {
+							pair := opt + " under " + o
+							if _, ok := o14Exceptions[pair]; !ok {
+								bad = o
+							}
+						}
+					}
+				}
+				if bad != "" {
+					c.viol(key, c.P.Pos(ifi.Cond.Pos()), fmt.Sprintf("the test of option %s is reached only on a branch that depends on option %s: for some value of %s the %s rule is never evaluated", opt, bad, bad, opt))
+				} else {
+					c.ok(key, c.P.Pos(ifi.Cond.Pos()), "not conditional on another option")
+				}
+			}
+		}
+	}
+	if n < 6 {
+		c.anchorFail("only %d option tests found in the resolver", n)
+	}
+}
+
+// ---------- E9: floats are ordered by floatCmp only ----------
+
+func init() {
+	register("E9", "floats are ordered in one place: Go's native < <= > >= on values of type starlark.Float (which treat NaN as unordered) occur only inside the float comparison helper and inside NaN-free numeric guards (tests against constants); min, max, sorted and comparison operators must go through Compare, under which NaN is greater than every other float and equal to itself", 1, ruleE9)
+	claim("C11", "E9")
+}
+
+func ruleE9(c *Ctx) {
+	n := 0
+	for _, fn := range c.P.Funcs {
+		if relPkg(fnPkgPath(fn)) != "starlark" {
+			continue
+		}
+		ord := 0
+		eachInstr(fn, func(in ssa.Instruction) {
+			bo, ok := in.(*ssa.BinOp)
+			if !ok {
+				return
+			}
+			switch bo.Op {
+			case token.LSS, token.GTR, token.LEQ, token.GEQ:
+			default:
+				return
+			}
+			isF := func(v ssa.Value) bool {
+				if isNamed(v.Type(), "starlark", "Float") {
+					return true
+				}
+				switch x := v.(type) {
+				case *ssa.Convert:
+					return isNamed(x.X.Type(), "starlark", "Float")
+				case *ssa.ChangeType:
+					return isNamed(x.X.Type(), "starlark", "Float")
+				}
+				return false
+			}
+			if !isF(bo.X) && !isF(bo.Y) {
+				return
+			}
+			_, kx := bo.X.(*ssa.Const)
+			_, ky := bo.Y.(*ssa.Const)
+			n++
+			ord++
+			key := fmt.Sprintf("%s: Float %s #%d", fnName(fn), bo.Op, ord)
+			top := outermost(fn)
+			switch {
+			case kx || ky:
+				c.ok(key, c.P.Pos(bo.Pos()), "comparison with a constant (sign or range guard)")
+			case top.Name() == "floatCmp":
+				c.ok(key, c.P.Pos(bo.Pos()), "inside the float comparison helper, which handles NaN explicitly")
+			default:
+				c.viol(key, c.P.Pos(bo.Pos()), "two Float values are ordered with Go's native operator outside floatCmp: with a NaN operand the result contradicts the total order used by <, sorted and dict/set lookup")
+			}
+		})
+	}
+	if n == 0 {
+		c.anchorFail("no native Float comparison found (expected those of floatCmp)")
+	}
+}
+
+// ---------- H8: unlinking an entry repairs both neighbours ----------
+
+func init() {
+	register("H8", "removing an entry from the insertion-order list repairs both directions: any function that redirects a forward link of the hashtable's order list (ht.head, or the link a prevLink/tailLink pointer designates) to an entry's successor (a value loaded from entry.next) also stores the successor's prevLink and the table's tailLink in the same function; otherwise a later deletion writes through a stale back-pointer and the iteration order no longer matches the contents", 1, ruleH8)
+	claim("C12", "H8")
+}
+
+func ruleH8(c *Ctx) {
+	n := 0
+	isEntryPtr := func(t types.Type) bool {
+		pt, ok := t.(*types.Pointer)
+		return ok && isNamed(pt.Elem(), "starlark", "entry")
+	}
+	for _, fn := range c.P.Funcs {
+		if relPkg(fnPkgPath(fn)) != "starlark" {
+			continue
+		}
+		var unlinks []*ssa.Store
+		storesPrev, storesTail := false, false
+		eachInstr(fn, func(in ssa.Instruction) {
+			st, ok := in.(*ssa.Store)
+			if !ok {
+				return
+			}
+			if fa, ok := st.Addr.(*ssa.FieldAddr); ok {
+				o, f := ownerField(fa)
+				if o == "starlark.entry" && f == "prevLink" {
+					storesPrev = true
+				}
+				if o == "starlark.hashtable" && f == "tailLink" {
+					storesTail = true
+				}
+			}
+			if !isEntryPtr(st.Val.Type()) {
+				return
+			}
+			// destination is a forward link: ht.head, e.next, or *(**entry)
+			isLink := false
+			switch a := st.Addr.(type) {
+			case *ssa.FieldAddr:
+				o, f := ownerField(a)
+				isLink = (o == "starlark.hashtable" && f == "head") || (o == "starlark.entry" && f == "next")
+			case *ssa.UnOp:
+				if a.Op == token.MUL {
+					if pt, ok := a.Type().(*types.Pointer); ok && isEntryPtr(pt.Elem()) {
+						isLink = true // *e.prevLink = ..., *ht.tailLink = ...
+					}
+				}
+			}
+			if !isLink {
+				return
+			}
+			// value: loaded from some entry's next field
+			tr := traceValue(st.Val)
+			fromNext := false
+			for i, f := range tr.fields {
+				if f.Name() == "next" && isNamed(tr.owners[i], "starlark", "entry") {
+					fromNext = true
+				}
+			}
+			if fromNext {
+				unlinks = append(unlinks, st)
+			}
+		})
+		for i, st := range unlinks {
+			n++
+			key := fmt.Sprintf("%s: unlink #%d", fnName(fn), i+1)
+			if storesPrev && storesTail {
+				c.ok(key, c.P.Pos(st.Pos()), "the function also stores the successor's prevLink and the table's tailLink")
+			} else {
+				missing := "the successor's prevLink"
+				if storesPrev {
+					missing = "ht.tailLink"
+				}
+				c.viol(key, c.P.Pos(st.Pos()), "an order-list link is redirected to an entry's successor, but the function never stores "+missing+": the back-pointers of the list are left stale, and a later delete or insert corrupts the iteration order")
+			}
+		}
+	}
+	if n == 0 {
+		c.anchorFail("no unlink of the order list found (expected the one in hashtable.delete)")
+	}
+}
+
+// ---------- J6: trivial unquoting is chosen only for bytes JSON allows unescaped ----------
+
+func init() {
+	register("J6", "json.decode's shortcut for strings is confined to what JSON allows unescaped: the string scanner keeps its 'trivial unquoting is safe' flag only for bytes 0x20..0x7f other than the quote and the backslash - the classification is evaluated here for each of the 256 byte values by abstract execution of the scan loop's SSA; every other byte (control characters, non-ASCII) must clear the flag so that the string goes through encoding/json, which rejects raw control characters and validates UTF-8", 1, ruleJ6)
+	claim("C18", "J6")
+}
+
+func ruleJ6(c *Ctx) {
+	n := 0
+	for _, fn := range c.P.Funcs {
+		if relPkg(fnPkgPath(fn)) != "lib/json" || outermost(fn).Name() != "decode" {
+			continue
+		}
+		// the fallback: encoding/json.Unmarshal, reached on the false edge of the flag
+		var flag ssa.Value
+		var um *ssa.Call
+		eachInstr(fn, func(in ssa.Instruction) {
+			call, ok := in.(*ssa.Call)
+			if !ok || in.Parent() != fn {
+				return
+			}
+			if cal := call.Call.StaticCallee(); cal != nil && cal.String() == "encoding/json.Unmarshal" {
+				for _, pc := range pathConds(call.Block()) {
+					cond, neg := stripNot(pc.If.Cond)
+					if _, isPhi := cond.(*ssa.Phi); isPhi && pc.Branch == neg {
+						flag = cond
+						um = call
+					}
+				}
+			}
+		})
+		if flag == nil {
+			continue
+		}
+		n++
+		key := fnName(fn) + ": string scan classification"
+		pos := c.P.Pos(um.Pos())
+		// the flag's phi family
+		fam := map[ssa.Value]bool{}
+		var addFam func(v ssa.Value)
+		addFam = func(v ssa.Value) {
+			if ph, ok := v.(*ssa.Phi); ok && !fam[ph] {
+				fam[ph] = true
+				for _, e := range ph.Edges {
+					addFam(e)
+				}
+			}
+		}
+		addFam(flag)
+		// the byte read: a string index whose result is compared with '"' and '\\'
+		var rd ssa.Value
+		var rdIn ssa.Instruction
+		eachInstr(fn, func(in ssa.Instruction) {
+			v, ok := in.(ssa.Value)
+			if !ok || in.Parent() != fn {
+				return
+			}
+			switch in.(type) {
+			case *ssa.Index, *ssa.Lookup:
+			default:
+				return
+			}
+			seenQ, seenB := false, false
+			if refs := v.Referrers(); refs != nil {
+				for _, r := range *refs {
+					if bo, ok := r.(*ssa.BinOp); ok && bo.Op == token.EQL {
+						if k, ok := constInt(bo.Y); ok {
+							if k == '"' {
+								seenQ = true
+							}
+							if k == '\\' {
+								seenB = true
+							}
+						}
+					}
+				}
+			}
+			if seenQ && seenB {
+				rd, rdIn = v, in
+			}
+		})
+		if rd == nil {
+			c.viol(key, pos, "cannot locate the scan loop's byte read (a string index compared with '\"' and '\\\\'): the set of strings that bypass encoding/json is undetermined")
+			continue
+		}
+		header := flag.(*ssa.Phi).Block()
+		var bad, undet []string
+		for b := 0; b < 256; b++ {
+			cleared, exited, ok := j6Run(fn, rdIn, rd, int64(b), fam, header)
+			if !ok {
+				undet = append(undet, fmt.Sprintf("0x%02x", b))
+				continue
+			}
+			if exited || cleared {
+				continue
+			}
+			if !(b >= 0x20 && b <= 0x7f && b != '"' && b != '\\') {
+				bad = append(bad, fmt.Sprintf("0x%02x", b))
+			}
+		}
+		switch {
+		case len(undet) > 0:
+			c.viol(key, pos, fmt.Sprintf("cannot evaluate the scan loop for byte(s) %s...: the set of strings that bypass encoding/json is undetermined", undet[0]))
+		case len(bad) > 0:
+			if len(bad) > 6 {
+				bad = append(bad[:6], "...")
+			}
+			c.viol(key, pos, fmt.Sprintf("the string scanner keeps the trivial-unquoting flag for byte(s) %s, which JSON does not allow unescaped inside a string: such documents are accepted instead of rejected", strings.Join(bad, " ")))
+		default:
+			c.ok(key, pos, "flag kept only for 0x20..0x7f minus quote and backslash (evaluated for all 256 byte values)")
+		}
+	}
+	if n == 0 {
+		c.anchorFail("no string-unquoting fallback (encoding/json.Unmarshal under a flag) found in json.decode")
+	}
+}
+
+// j6Run executes the loop body for one byte value: from the read instruction to the
+// loop header (continue) or out of the loop (exit). cleared: the flag was set false.
+func j6Run(fn *ssa.Function, rdIn ssa.Instruction, rd ssa.Value, b int64, fam map[ssa.Value]bool, header *ssa.BasicBlock) (cleared, exited, ok bool) {
+	env := map[ssa.Value]int64{rd: b}
+	eval := func(v ssa.Value) (int64, bool) {
+		if k, ok := constInt(v); ok {
+			return k, true
+		}
+		if x, ok := env[v]; ok {
+			return x, true
+		}
+		return 0, false
+	}
+	blk := rdIn.Block()
+	start := 0
+	for i, in := range blk.Instrs {
+		if in == rdIn {
+			start = i + 1
+		}
+	}
+	canReachHeader := func(b *ssa.BasicBlock) bool { return b == header || reachable(b, header) }
+	for steps := 0; steps < 200; steps++ {
+		var next *ssa.BasicBlock
+		for _, in := range blk.Instrs[start:] {
+			switch x := in.(type) {
+			case *ssa.BinOp:
+				a, ok1 := eval(x.X)
+				c2, ok2 := eval(x.Y)
+				if !ok1 || !ok2 {
+					continue
+				}
+				t := func(v bool) int64 {
+					if v {
+						return 1
+					}
+					return 0
+				}
+				switch x.Op {
+				case token.EQL:
+					env[x] = t(a == c2)
+				case token.NEQ:
+					env[x] = t(a != c2)
+				case token.LSS:
+					env[x] = t(a < c2)
+				case token.LEQ:
+					env[x] = t(a <= c2)
+				case token.GTR:
+					env[x] = t(a > c2)
+				case token.GEQ:
+					env[x] = t(a >= c2)
+				case token.AND:
+					env[x] = a & c2
+				case token.OR:
+					env[x] = a | c2
+				case token.SUB:
+					env[x] = a - c2
+				case token.ADD:
+					env[x] = a + c2
+				}
+			case *ssa.UnOp:
+				if x.Op == token.NOT {
+					if v, ok := eval(x.X); ok {
+						env[x] = 1 - v
+					}
+				}
+			case *ssa.Convert:
+				if v, ok := eval(x.X); ok {
+					env[x] = v
+				}
+			case *ssa.Call:
+				// pure byte-class helpers: isdigit(b) style - evaluate through the predicate interpreter
+				if cal := x.Call.StaticCallee(); cal != nil && len(x.Call.Args) == 1 && cal.Blocks != nil {
+					if a, ok := eval(x.Call.Args[0]); ok {
+						if r, ok := evalByteFunc(cal, a); ok {
+							env[x] = r
+						}
+					}
+				}
+			case *ssa.If:
+				v, ok := eval(x.Cond)
+				if !ok {
+					return false, false, false
+				}
+				if v != 0 {
+					next = blk.Succs[0]
+				} else {
+					next = blk.Succs[1]
+				}
+			case *ssa.Jump:
+				next = blk.Succs[0]
+			case *ssa.Return, *ssa.Panic:
+				return cleared, true, true
+			}
+		}
+		if next == nil {
+			return false, false, false
+		}
+		// phi transfer for the flag family
+		for _, in := range next.Instrs {
+			ph, ok := in.(*ssa.Phi)
+			if !ok {
+				break
+			}
+			if !fam[ph] {
+				continue
+			}
+			for i, p := range next.Preds {
+				if p != blk {
+					continue
+				}
+				e := ph.Edges[i]
+				if k, ok := e.(*ssa.Const); ok && k.Value != nil {
+					cleared = k.Value.String() == "false"
+				} else if fam[e] {
+					// carried
+				} else {
+					return false, false, false
+				}
+			}
+		}
+		if next == header {
+			return cleared, false, true
+		}
+		if !canReachHeader(next) {
+			return cleared, true, true
+		}
+		blk, start = next, 0
+	}
+	return false, false, false
+}
+
+// evalByteFunc evaluates a one-argument byte/rune classification function (isdigit) on a constant.
+func evalByteFunc(fn *ssa.Function, arg int64) (int64, bool) {
+	if len(fn.Params) != 1 || len(fn.Blocks) == 0 {
+		return 0, false
+	}
+	env := map[ssa.Value]int64{fn.Params[0]: arg}
+	eval := func(v ssa.Value) (int64, bool) {
+		if k, ok := constInt(v); ok {
+			return k, true
+		}
+		if c, ok := v.(*ssa.Const); ok && c.Value != nil && c.Value.Kind().String() == "Bool" {
+			if c.Value.String() == "true" {
+				return 1, true
+			}
+			return 0, true
+		}
+		x, ok := env[v]
+		return x, ok
+	}
+	blk := fn.Blocks[0]
+	var prev *ssa.BasicBlock
+	for steps := 0; steps < 100; steps++ {
+		var next *ssa.BasicBlock
+		for _, in := range blk.Instrs {
+			switch x := in.(type) {
+			case *ssa.Phi:
+				for i, p := range blk.Preds {
+					if p == prev {
+						if v, ok := eval(x.Edges[i]); ok {
+							env[x] = v
+						} else {
+							return 0, false
+						}
+					}
+				}
+			case *ssa.BinOp:
+				a, ok1 := eval(x.X)
+				c2, ok2 := eval(x.Y)
+				if !ok1 || !ok2 {
+					return 0, false
+				}
+				t := func(v bool) int64 {
+					if v {
+						return 1
+					}
+					return 0
+				}
+				switch x.Op {
+				case token.EQL:
+					env[x] = t(a == c2)
+				case token.NEQ:
+					env[x] = t(a != c2)
+				case token.LSS:
+					env[x] = t(a < c2)
+				case token.LEQ:
+					env[x] = t(a <= c2)
+				case token.GTR:
+					env[x] = t(a > c2)
+				case token.GEQ:
+					env[x] = t(a >= c2)
+				case token.SUB:
+					env[x] = a - c2
+				case token.ADD:
+					env[x] = a + c2
+				case token.AND:
+					env[x] = a & c2
+				case token.OR:
+					env[x] = a | c2
+				default:
+					return 0, false
+				}
+			case *ssa.Convert:
+				if v, ok := eval(x.X); ok {
+					env[x] = v
+				}
+			case *ssa.If:
+				v, ok := eval(x.Cond)
+				if !ok {
+					return 0, false
+				}
+				prev = blk
+				if v != 0 {
+					next = blk.Succs[0]
+				} else {
+					next = blk.Succs[1]
+				}
+			case *ssa.Jump:
+				prev = blk
+				next = blk.Succs[0]
+			case *ssa.Return:
+				if len(x.Results) != 1 {
+					return 0, false
+				}
+				return eval(x.Results[0])
+			case *ssa.DebugRef:
+			default:
+				return 0, false
+			}
+		}
+		if next == nil {
+			return 0, false
+		}
+		blk = next
+	}
+	return 0, false
 }
